@@ -7,7 +7,9 @@ CASE_TYPE = 'C19_case'
 VERDICT = 'C19_verdict'
 PROPS_FILE = 'theories/Props/C19.v'
 THEOREM = 'C19_shorthands_faithful'
-RULE = ('three kinds of cases. ctrl (60%): twin worlds driven by the same random history '
+RULE = ('three kinds of cases. ctrl (60%): twin sides, each with two independent Worlds sharing '
+        'the controller instances (45% of the cases use the second world: controllers are '
+        'removed from one world and attached in the other and back), driven by the same history '
         '(create_entity / add_component / remove_component / delete_entity deferred+immediate / '
         'process / dispatch_enabled toggles / processors) over 2-5 component classes and 1-3 '
         'Controller subclasses (random DAGs), 1-4 entities, instances re-attached now and then '
@@ -542,6 +544,30 @@ def run(case):
     return {'ctrl': run_ctrl, 'proto': run_proto, 'upd': run_upd}[case['kind']](case)
 
 
+def hostile_ns(eq, falsy):
+    """class attributes of a processor that is hostile to == and to truth tests"""
+    ns = {}
+    if eq == 'true':
+        ns['__eq__'] = lambda self, other: True
+        ns['__ne__'] = lambda self, other: False
+    elif eq == 'false':
+        ns['__eq__'] = lambda self, other: False
+        ns['__ne__'] = lambda self, other: False
+    elif eq == 'class':
+        ns['__eq__'] = lambda self, other: type(self) is type(other)
+    if eq:
+        ns['__hash__'] = object.__hash__
+    if falsy == 'bool':
+        ns['__bool__'] = lambda self: False
+    elif falsy == 'len':
+        ns['__len__'] = lambda self: 0
+    return ns
+
+
+def unwrap(o):
+    return (2, o[1]) if o[0] == 'w2' else (1, o)
+
+
 def run_ctrl(case):
     import desper
     log = []
@@ -553,6 +579,8 @@ def run_ctrl(case):
         ns = {'process': lambda self, dt=1: log.append([self.side, self.serial, dt])}
         if case['pprio'][i] is not None:
             ns['priority'] = case['pprio'][i]
+        ns.update(hostile_ns((case.get('peq') or [None] * npt)[i],
+                             (case.get('pfalsy') or [None] * npt)[i]))
         pclasses.append(type('P%d' % i, tuple(pclasses[j] for j in bs) or (desper.Processor,), ns))
     for i, bs in enumerate(case['kbases']):
         kclasses.append(type('K%d' % i, tuple(kclasses[j] for j in bs) or (desper.Controller,),
@@ -578,7 +606,7 @@ def run_ctrl(case):
     class Side:
         def __init__(self, name):
             self.name = name
-            self.w = desper.World()
+            self.ws = {1: desper.World(), 2: desper.World()}
             self.comps = []
             for kind, i in case['comps']:
                 self.comps.append(None if kind == 'plain' else
@@ -608,17 +636,21 @@ def run_ctrl(case):
                     return k
             return -1
 
-        def snap(self):
-            w = self.w
+        def snap(self, j):
+            w = self.ws[j]
             cent, world_ok = [], True
             for k, (kind, _) in enumerate(case['comps']):
                 if kind == 'c':
                     continue
                 c = self.comps[k]
                 ent = None if c is None else c.entity
-                cent.append([k, ent if (ent is None or isinstance(ent, int)) else -99])
-                if c is not None and ent is not None and c.world is not w:
+                if ent is None:
+                    cent.append([k, None])
+                    continue
+                widx = 1 if c.world is self.ws[1] else 2 if c.world is self.ws[2] else 0
+                if widx == 0 and c.world is not None:
                     world_ok = False
+                cent.append([k, [ent if isinstance(ent, int) else -99, widx]])
             return dict(
                 entities=sorted(w.entities),
                 comps=[sorted(self.cidx(c) for c in w.get_components(e)) for e in case['ents']],
@@ -630,9 +662,9 @@ def run_ctrl(case):
 
     A, B = Side('A'), Side('B')
 
-    def world_call(S, o):
-        """a direct World call; returns (res, pick)"""
-        w, kind = S.w, o[0]
+    def world_call(S, j, o):
+        """a direct World call on world j; returns (res, pick)"""
+        w, kind = S.ws[j], o[0]
         if kind == 'create':
             r = w.create_entity(*[S.comps[c] for c in o[2]], entity_id=o[1])
             return ['opt', r], None
@@ -745,7 +777,8 @@ def run_ctrl(case):
         raise ValueError(kind)
 
     out = []
-    for o in case['ops']:
+    for wrapped in case['ops']:
+        j, o = unwrap(wrapped)
         del log[:]
         cur = 0
         picks = []
@@ -753,7 +786,7 @@ def run_ctrl(case):
         for S in (A, B):
             try:
                 if o[0] == 'mk':
-                    S.comps[o[1]] = desper.controller(o[2], S.w)
+                    S.comps[o[1]] = desper.controller(o[2], S.ws[j])
                     res, pick = ['none'], None
                 elif o[0] == 'short' and S is A:
                     if o[3][0] == 'prefset':
@@ -761,18 +794,18 @@ def run_ctrl(case):
                     res, pick = through(S, o[1], o[3], o[4])
                 elif o[0] == 'short':
                     wo, discard = lower(o[2], o[3])
-                    res, pick = world_call(S, wo)
+                    res, pick = world_call(S, j, wo)
                     if discard:
                         res = ['none']
                 else:
                     if o[0] == 'addproc' and S is A:
                         cur = S.procs[o[1]].priority
-                    res, pick = world_call(S, o)
+                    res, pick = world_call(S, j, o)
             except Exception as ex:
                 res, pick = ['exn', exn_code(ex)], None
             picks.append(pick)
             runs = [[e[1], e[2]] for e in log if e[0] == S.name]
-            sides.append(dict(res=res, log=runs, snap=S.snap()))
+            sides.append(dict(res=res, log=runs, snap=S.snap(j)))
         pick = picks[0] if picks[0] is not None else picks[1]
         out.append(dict(a=sides[0], b=sides[1], pick=pick, cur=cur))
     return dict(obs=out, hier=hier)
@@ -953,7 +986,8 @@ def enc_snap(s):
         lst([b(x) for x in s['exists']]),
         lst([z(p) for p in s['procs']]),
         lst([z(p) for p in s['prios']]),
-        lst(['(%s, %s)' % (z(k), opt(None if e is None else z(e))) for k, e in s['cent']]),
+        lst(['(%s, %s)' % (z(k), opt(None if e is None else '(%s, %s)' % (z(e[0]), z(e[1]))))
+             for k, e in s['cent']]),
         b(s['world']))
 
 
@@ -1018,14 +1052,15 @@ def encode(case, trace):
         procs = lst(['(%s, Build_inst %s false false false)' % (z(k), z(PT0 + i))
                      for k, i in enumerate(case['procs'])])
         items = []
-        for o, ob in zip(case['ops'], trace['obs']):
+        for wrapped, ob in zip(case['ops'], trace['obs']):
+            j, o = unwrap(wrapped)
             cur = ob['cur'] if isinstance(ob['cur'], int) else -7777
             if o[0] == 'short':
-                op = '(OShort %s %s %s)' % (z(o[1]), z(o[2]), enc_sh(o[3], cur))
+                op = '(OShort %s %s %s %s)' % (z(o[1]), z(o[2]), z(j), enc_sh(o[3], cur))
             elif o[0] == 'mk':
-                op = '(OMkCtrl %s %s)' % (z(o[1]), z(o[2]))
+                op = '(OMkCtrl %s %s %s)' % (z(o[1]), z(o[2]), z(j))
             else:
-                op = '(ODirect %s)' % enc_wop(o, cur)
+                op = '(ODirect %s %s)' % (z(j), enc_wop(o, cur))
             sides = []
             for s in (ob['a'], ob['b']):
                 sides.append('%s %s %s' % (
@@ -1082,7 +1117,7 @@ def encode(case, trace):
 # ===================================================================== evidence
 def nontrivial(case, trace):
     if case['kind'] == 'ctrl':
-        return sum(1 for o in case['ops'] if o[0] == 'short') >= 3
+        return sum(1 for o in case['ops'] if unwrap(o)[1][0] == 'short') >= 3
     if case['kind'] == 'proto':
         for pr in trace.get('protos', []):
             f = pr['facts']
@@ -1102,7 +1137,8 @@ def nontrivial(case, trace):
 def stats(cases, traces):
     kinds, shorts, combos = {}, {}, {}
     d = dict(short_on_pending_entity=0, short_while_disabled=0, nonexact_picks=0, reattached=0,
-             repeated_reference_reads=0,
+             repeated_reference_reads=0, cases_with_two_worlds=0,
+             shorthand_after_change_of_world=0,
              proto_custom_prefix=0, proto_typeerror=0, upd_frames=0, upd_frames_2plus=0)
     for c, t in zip(cases, traces):
         kinds[c['kind']] = kinds.get(c['kind'], 0) + 1
@@ -1110,7 +1146,15 @@ def stats(cases, traces):
             enabled = True
             seen_c = set()
             reads = set()
-            for o, ob in zip(c['ops'], t['obs']):
+            if any(o[0] == 'w2' for o in c['ops']):
+                d['cases_with_two_worlds'] += 1
+            cworld = {}
+            for wrapped, ob in zip(c['ops'], t['obs']):
+                jw, o = unwrap(wrapped)
+                if o[0] == 'short':
+                    if cworld.get(o[1], jw) != jw:
+                        d['shorthand_after_change_of_world'] += 1
+                    cworld[o[1]] = jw
                 if o[0] == 'short' and o[3][0] in ('refget', 'prefget'):
                     key = (o[1], o[3][0], o[3][1])
                     if key in reads:
